@@ -93,7 +93,7 @@ type Profile struct {
 	MaxFiles  int
 	Comments  bool // attach leading comments (descriptions)
 	CrossPkg  bool // bias towards several files, a sub-package first, and references across files
-	Collide   bool // add descriptors whose split names (path joined by "_") coincide
+	Collide   int  // >0: add descriptors whose split names (path joined by "_") coincide (variant 1..4, see addCollision)
 	Clash     bool // add a message whose exposed oneof and a field get the same JSON property name
 	FlatCycle int  // >0: add a crafted cycle of that many messages each flattening the next (negative: with a chain leading into it)
 	FlatDeep  int  // >0: add a crafted chain of that many nested flatten levels, several properties of differing kinds at every level
@@ -145,6 +145,7 @@ func (g *gen) chance(p int) bool   { return g.r.Chance(p) }
 func pick[T any](g *gen, xs []T) T { return xs[g.r.Intn(len(xs))] }
 
 var pkgNames = []string{"gen.a.v1", "gen.b.v1", "gen.a.v1.sub", "gen.c.v2", "gen.b.v1.topic", "gen.c.v2.service", "gen.d.v1.sandbox"}
+
 // package names around splitPackageParts: unversioned, "v1beta" (not a version part), two version parts,
 // two parts after the version, a bare version, a two-digit version with a sub-package
 var oddPkgNames = []string{"gen.x", "gen.f.v1beta", "gen.e.v1.v2", "gen.a.v1.s.t", "v3", "gen.g.v10.sub", "gen.h.v1x.v2"}
@@ -195,9 +196,9 @@ func Generate(r *vh.Rand, p Profile, deps []*descriptorpb.FileDescriptorProto) *
 	if nFiles > 1 {
 		g.tag("multi-file")
 	}
-	if p.Collide {
-		addCollision(c.Gen[0], r.Chance(50))
-		g.tag("split-name-collision-crafted")
+	if p.Collide > 0 {
+		addCollision(c.Gen[0], p.Collide)
+		g.tag(fmt.Sprintf("split-name-collision-crafted-%d", p.Collide))
 	}
 	if p.Clash {
 		addOneofClash(c.Gen[0])
@@ -1720,11 +1721,10 @@ func repairSupported(files []*descriptorpb.FileDescriptorProto) {
 	}
 }
 
-
 // addCollision appends `message Col { enum Kind; message Inner }`, `message Col_Kind` (with a field
 // of type Col.Kind, optionally carrying an enum rule) and `message Col_Inner` (with a field of type
 // Col.Inner): an enum and a message, and two messages, whose schema names coincide.
-func addCollision(fd *descriptorpb.FileDescriptorProto, withRule bool) {
+func addCollision(fd *descriptorpb.FileDescriptorProto, variant int) {
 	pkg := "." + fd.GetPackage()
 	opt := descriptorpb.FieldDescriptorProto_LABEL_OPTIONAL.Enum()
 	col := &descriptorpb.DescriptorProto{
@@ -1745,7 +1745,8 @@ func addCollision(fd *descriptorpb.FileDescriptorProto, withRule bool) {
 	}
 	k := &descriptorpb.FieldDescriptorProto{Name: proto.String("k"), Number: proto.Int32(1), Label: opt,
 		Type: descriptorpb.FieldDescriptorProto_TYPE_ENUM.Enum(), TypeName: proto.String(pkg + ".Col.Kind")}
-	if withRule {
+	if variant == 2 {
+		// variant 2: the enum field carries a rule (until the guard in buildEnumFieldSchema: a panic)
 		k.Options = &descriptorpb.FieldOptions{}
 		proto.SetExtension(k.Options, validate.E_Field, &validate.FieldConstraints{Type: &validate.FieldConstraints_Enum{Enum: &validate.EnumRules{In: []int32{1}}}})
 	}
@@ -1754,9 +1755,29 @@ func addCollision(fd *descriptorpb.FileDescriptorProto, withRule bool) {
 		{Name: proto.String("i"), Number: proto.Int32(1), Label: opt, Type: descriptorpb.FieldDescriptorProto_TYPE_MESSAGE.Enum(), TypeName: proto.String(pkg + ".Col.Inner")},
 		{Name: proto.String("s"), Number: proto.Int32(2), Label: opt, Type: descriptorpb.FieldDescriptorProto_TYPE_STRING.Enum()},
 	}}
+	switch variant {
+	case 3:
+		// variant 3: the enum is referred to (and its schema registered) before the message with the
+		// same split name is read: that message is then answered with the enum schema
+		col.Field = append(col.Field, &descriptorpb.FieldDescriptorProto{Name: proto.String("kind"), Number: proto.Int32(1), Label: opt,
+			Type: descriptorpb.FieldDescriptorProto_TYPE_ENUM.Enum(), TypeName: proto.String(pkg + ".Col.Kind")})
+		colKind.Field = []*descriptorpb.FieldDescriptorProto{
+			{Name: proto.String("x"), Number: proto.Int32(1), Label: opt, Type: descriptorpb.FieldDescriptorProto_TYPE_STRING.Enum()},
+		}
+	case 4:
+		// variant 4: an exposed real oneof Col.pick and a message Col_pick
+		oo := &descriptorpb.OneofOptions{}
+		proto.SetExtension(oo, ext_j5pb.E_Oneof, &ext_j5pb.OneofOptions{Expose: true})
+		col.OneofDecl = []*descriptorpb.OneofDescriptorProto{{Name: proto.String("pick"), Options: oo}}
+		col.Field = append(col.Field,
+			&descriptorpb.FieldDescriptorProto{Name: proto.String("a"), Number: proto.Int32(1), Label: opt, Type: descriptorpb.FieldDescriptorProto_TYPE_STRING.Enum(), OneofIndex: proto.Int32(0)},
+			&descriptorpb.FieldDescriptorProto{Name: proto.String("b"), Number: proto.Int32(2), Label: opt, Type: descriptorpb.FieldDescriptorProto_TYPE_INT64.Enum(), OneofIndex: proto.Int32(0)})
+		fd.MessageType = append(fd.MessageType, &descriptorpb.DescriptorProto{Name: proto.String("Col_pick"), Field: []*descriptorpb.FieldDescriptorProto{
+			{Name: proto.String("y"), Number: proto.Int32(1), Label: opt, Type: descriptorpb.FieldDescriptorProto_TYPE_BOOL.Enum()},
+		}})
+	}
 	fd.MessageType = append(fd.MessageType, col, colKind, colInner)
 }
-
 
 // addFlattenCycle appends messages Cyc0 .. Cyc<n-1>, each with a flattened object field of the next
 // (the last of the first) and one scalar; with lead, a message CycLead flattens Cyc0 (a chain into
